@@ -53,8 +53,7 @@ void h_matchString(void) { Parser *p; char w[8]; w[7] = 0; bool r = Parser_match
 /* ---- matchWordCaseInsensitive ---- */
 DECL_match(Parser_matchWordCaseInsensitive_safe, MATCH_SAFE)
 DECL_match(Parser_matchWordCaseInsensitive_sound, MATCHWORD_SOUND)
-/* MATCHWORD_COMPLETE (a present word + boundary is always recognised) is stated in contracts.h but NOT proved: the back end runs out of
- * memory (8 GB) on it; see NOTES.md. It is not used by any other unit. */
+DECL_match(Parser_matchWordCaseInsensitive_complete, MATCHWORD_COMPLETE)
 void h_matchWord(void) { Parser *p; char w[8]; w[7] = 0; bool r = Parser_matchWordCaseInsensitive(p, w); IORA_CANARY("h_matchWord: returns");
   if (r) { IORA_CANARY("h_matchWord: matched"); } else { IORA_CANARY("h_matchWord: no match"); } }
 
